@@ -59,7 +59,7 @@ type caseC struct {
 
 func jsonStr(v any) string { b, _ := json.Marshal(v); return string(b) }
 
-var items = []string{"1.2.3.4", "1.2.3.0/24", "1.2.0.0/16", "0.0.0.0/0", "2001:db8::1", "2001:db8::/32", "::/0", "fe80::/10", "cid-a", "cid-b"}
+var items = []string{"1.2.3.4", "1.2.3.0/24", "1.2.0.0/16", "0.0.0.0/0", "2001:db8::1", "2001:db8::/32", "::/0", "fe80::/10", "cid-a", "cid-b", "fe80::1", "CID-X"}
 
 var addrs = []string{"1.2.3.4", "1.2.3.9", "1.2.9.9", "9.9.9.9", "2001:db8::1", "2001:db8::2", "2001:dead::1", "fe80::1%eth0", "::ffff:1.2.3.4"}
 
@@ -105,7 +105,10 @@ func disjoint(a, b []string) bool {
 func addrIn(list []string, ip netip.Addr) bool {
 	for _, it := range list {
 		if a, err := netip.ParseAddr(it); err == nil {
-			if a == ip {
+			// A link-local client address arrives with its zone; a list entry
+			// without one means the address on any interface (the networks are
+			// compared without the zone as well).
+			if a == ip || (a.Zone() == "" && a == ip.WithZone("")) {
 				return true
 			}
 		} else if p, err := netip.ParsePrefix(it); err == nil {
@@ -121,8 +124,9 @@ func idIn(list []string, id string) bool {
 	if id == "" {
 		return false
 	}
+	// ClientIDs are case-insensitive (the one of a request is lower-cased).
 	for _, it := range list {
-		if it == id {
+		if strings.EqualFold(it, id) {
 			return true
 		}
 	}
